@@ -11,10 +11,12 @@ from . import schema
 
 PI = "onnx_ir.passes._pass_infra"
 LEVEL = "proof"
-TRUSTED = ["a pass's own requires()/call()/ensures() are arbitrary code (uninterpreted calls that may raise)"]
+from . import onnx_api as _onnx_api
+TRUSTED = ["a pass's own requires()/call()/ensures() are arbitrary code (uninterpreted calls that may raise)"] + _onnx_api.TRUSTED
 NOT_DECIDED = ["modified=False => identical serialization, per built-in pass: bounded stand-in",
                "convergence within a size-bounded number of rounds: bounded stand-in",
-               "call_onnx_api / CheckerPass / ShapeInferencePass leave the model unchanged under faults: bounded stand-in (after fix 874b025)"]
+               "call_onnx_api restores initializer order/data/type/shape and graph inputs on every exit: PROVED (target call_onnx_api); what "
+               "CheckerPass / ShapeInferencePass do around it (merging inferred shapes, strict mode) under faults: bounded stand-in"]
 BOUNDED = [{"name": "C14 every built-in pass on hand-written models: identity rule, modified flag, fixpoint, links, faults at the ONNX boundary (bounded, not a proof)",
             "script": "bounded_passes.py", "args": ["--prop", "C14"]}]
 
@@ -25,6 +27,9 @@ def build(eng, tier):
     # node (returned False) has had no field written
     from . import C05
     C05.build_identity(eng)
+    # analysis passes leave the model unchanged under faults: the shared call_onnx_api wrapper
+    from . import onnx_api
+    onnx_api.add_call_onnx_api_target(eng)
 
 
 def _build_infra(eng, tier):
